@@ -21,6 +21,8 @@ COQ_FILES = ['Lib/Str.v', 'Gen/C18Keywords.v', 'C18/Model.v', 'C18/Spec.v', 'C18
 IMPL = os.path.join(os.path.dirname(os.path.abspath(__file__)), 'impl_c18.py')
 WORKDIR = os.path.join(WORK, 'c18')
 KNOWN_NONPLAIN = 'C18/template-nonplain-reference-unchecked'
+KNOWN_FIXED_WIDTH = 'C18/csv-with-two-blank-dates-reported-fixed-width'
+DATE2 = re.compile(r'^\d{2}/\d{2}/\d{4}\s{2,}')
 
 BLANKS = ['', '', '', ' ', ' ', '  ', '\t', ' \t ', '\n', '\r', '\x0b', '\x0c', '\x1c', '\x1d\x1e', '\x1f ']
 DATE_FORMATS = ['%m/%d/%Y', '%Y-%m-%d', '%d.%m.%y', '%d %b %Y', '%b %d %Y %H:%M', '%Y%m%d', '%d/%m/%Y %H:%M:%S',
@@ -236,17 +238,22 @@ def oracle_inspect(case, r):
         return 'inspect-crashes-after-detection', {'crash': r['crash']}, None
     det = r.get('detected')
     direct = r.get('direct')
+    # known finding: the file is reported as fixed_width AND >= 3 of its first 20 lines start with MM/DD/YYYY + two blanks
+    # (the heuristic's documented trigger; a single blank, fewer lines or another pattern is a different violation)
+    sig = None
+    if r.get('file_type') == 'fixed_width' and sum(1 for l in (r.get('sample_lines') or [])[:20] if DATE2.match(l)) >= 3:
+        sig = KNOWN_FIXED_WIDTH
     # a format string printed outside the auto-detection block is a suggestion for this CSV file too
     for of in r.get('other_formats') or []:
         rp = of['reparse']
         ref = det or direct
         if ref and (not rp['ok'] or any(rp[k] != ref[k] for k in ('date', 'desc', 'amount'))):
             return 'suggestion-selects-other-columns', {'suggested': of['format'], 'reparsed': rp, 'auto_detected': ref,
-                                                        'file_type_reported': r.get('file_type')}, None
+                                                        'file_type_reported': r.get('file_type')}, sig
     if direct and not det and not r.get('crash'):
         return 'inspect-does-not-report-auto-detected-columns', {'auto_detect_csv_format': direct,
                                                                  'file_type_reported': r.get('file_type'),
-                                                                 'section_printed': bool(r.get('section'))}, None
+                                                                 'section_printed': bool(r.get('section'))}, sig
     if det and direct and any(det[k] != direct[k] for k in ('date', 'desc', 'amount', 'loc', 'fmt')):
         return 'inspect-reports-other-columns-than-auto-detect', {'reported': det, 'auto_detect_csv_format': direct}, None
     if not det:
@@ -498,6 +505,10 @@ def file_type_boundary_cases():
                 mk(f'{nm}+amount-after-blank/{n}', H, ds, amts_sp[:n])               # ... + amount indicator
                 mk(f'{nm}+long-lines/{n}', H, ds, amts[:n], extra=pad)                # ... + long uniform lines
                 mk(f'{nm}+both/{n}', H, ds, amts_sp[:n], extra=pad)                   # ... + both
+            # date + TWO blanks on >= 3 lines + another indicator: scored fixed-width by the unchanged code (known finding,
+            # C18.Props.c18_csv_is_reported_refuted)
+            mk(f'two-blanks+amount-after-blank/{n}', H, [d + '  Fri' for d in days[:n]], amts_sp[:n])
+            mk(f'two-blanks+long-lines/{n}', H, [d + '  Fri' for d in days[:n]], amts[:n], extra=pad)
             # date + TWO blanks on >= 3 lines, no other indicator (2 points)
             mk(f'two-blanks-only/{n}', H, [d + '  Fri' for d in days[:n]], amts[:n])
             # no date-blank pattern, both other indicators (2 points)
@@ -608,16 +619,26 @@ Definition ok_parse (c : string * option string * ftab * pexp) : bool :=
        && Bool.eqb (f_neg s) ng && Bool.eqb (f_abs s) ab && ostr_eqb (f_template s) tm)%bool
   | _, _ => false
   end.
-Inductive iexp := INone | ISome (date : nat) (fmt : string) (desc amount : nat) (loc : option nat) (suggested : string).
-Definition ok_inspect (c : list string * iexp) : bool :=
-  let '(hs, e) := c in
-  match auto_detect hs, e with
-  | None, INone => true
-  | Some d, ISome da fm de am lo sg =>
-      (Nat.eqb (a_date d) da && String.eqb (a_date_format d) fm && Nat.eqb (a_desc d) de && Nat.eqb (a_amount d) am
-       && onat_eqb (a_loc d) lo && String.eqb (suggest d) sg)%bool
-  | _, _ => false
-  end.
+Inductive iexp := IFixed | INone | ISome (date : nat) (fmt : string) (desc amount : nat) (loc : option nat) (suggested : string).
+Inductive dexp := DNone | DSome (date : nat) (fmt : string) (desc amount : nat) (loc : option nat).
+(* (lines of the file sample, header cells, auto_detect_csv_format called directly, what `tally inspect` printed) *)
+Definition ok_inspect (c : list string * list string * dexp * iexp) : bool :=
+  let '(ls, hs, dx, e) := c in
+  (match inspect_report ls hs, e with
+   | RFixedWidth, IFixed => true
+   | RNoDetect, INone => true
+   | RDetected d s, ISome da fm de am lo sg =>
+       (Nat.eqb (a_date d) da && String.eqb (a_date_format d) fm && Nat.eqb (a_desc d) de && Nat.eqb (a_amount d) am
+        && onat_eqb (a_loc d) lo && String.eqb s sg)%bool
+   | _, _ => false
+   end
+   && match auto_detect hs, dx with
+      | None, DNone => true
+      | Some d, DSome da fm de am lo =>
+          (Nat.eqb (a_date d) da && String.eqb (a_date_format d) fm && Nat.eqb (a_desc d) de && Nat.eqb (a_amount d) am
+           && onat_eqb (a_loc d) lo)%bool
+      | _, _ => false
+      end)%bool.
 Fixpoint failing {A} (ok : A -> bool) (i : nat) (l : list A) : list nat :=
   match l with [] => [] | c :: r => if ok c then failing ok (S i) r else i :: failing ok (S i) r end.
 '''
@@ -716,28 +737,35 @@ def model_check(parse_cases, parse_res, insp_cases, insp_res):
         if r.get('cells') != c['headers'] and not (r.get('cells') is None and not c['headers']):
             disc['csv-roundtrip-differs'] += 1
             continue
-        if not r.get('section'):
-            disc['no-autodetect-section'] += 1
-            continue
         det = r.get('detected')
-        if det is None:
+        if not r.get('section'):
+            if r.get('file_type') == 'fixed_width':
+                e = 'IFixed'
+            else:
+                disc['no-autodetect-section'] += 1
+                continue
+        elif det is None:
             e = 'INone'
         elif any(det[k] is None for k in ('date', 'desc', 'amount', 'fmt')) or r.get('suggested') is None:
             disc['report-unparsable'] += 1
             continue
         else:
             e = f"ISome {det['date']} {coq_str(det['fmt'])} {det['desc']} {det['amount']} {onat(det['loc'])} {coq_str(r['suggested'])}"
-        rows.append('([' + '; '.join(coq_str(h) for h in c['headers']) + f'], {e})')
+        dx = r.get('direct')
+        dx = 'DNone' if not dx else f"(DSome {dx['date']} {coq_str(dx['fmt'])} {dx['desc']} {dx['amount']} {onat(dx['loc'])})"
+        rows.append('([' + '; '.join(coq_str(l) for l in r.get('sample_lines') or []) + '], [' +
+                    '; '.join(coq_str(h) for h in c['headers']) + f'], {dx}, {e})')
         idx.append(i)
-    bad, err = run_chunks('inspect', rows, 'ok_inspect')
+    counts['inspect_reported_fixed_width'] = sum(1 for x in rows if x.endswith('IFixed)'))
+    bad, err = run_chunks('inspect', rows, 'ok_inspect', chunk=200)
     counts['inspect'] = len(rows)
     counts['inspect_discards'] = disc
     if bad is None:
-        broken.append({'kind': 'broken-correspondence', 'obligation': 'model_vs_impl(C18.Model.auto_detect+suggest, tally inspect)',
+        broken.append({'kind': 'broken-correspondence', 'obligation': 'model_vs_impl(C18.Model.inspect_report (file kind + auto_detect + suggest), tally inspect + auto_detect_csv_format)',
                        'detail': 'cases.v did not evaluate: ' + err})
     elif bad:
         j = min((idx[b] for b in bad), key=lambda k: len(insp_cases[k]['headers']))
-        broken.append({'kind': 'broken-correspondence', 'obligation': 'model_vs_impl(C18.Model.auto_detect+suggest, tally inspect)',
+        broken.append({'kind': 'broken-correspondence', 'obligation': 'model_vs_impl(C18.Model.inspect_report (file kind + auto_detect + suggest), tally inspect + auto_detect_csv_format)',
                        'detail': {'headers': insp_cases[j]['headers'], 'implementation': insp_res[j], 'n_disagreeing': len(bad)},
                        'indices': [idx[b] for b in bad][:50]})
     return broken, counts
@@ -803,7 +831,7 @@ def shrink_parse(case, tag):
     return cur
 
 
-def shrink_inspect(case, tag):
+def shrink_inspect(case, tag, sig=None):
     """Greedy: drop a column (header cell and its data cells together), drop a data row, plain header spelling."""
     cur = {'headers': list(case['headers']), 'rows': [list(r) for r in case.get('rows', [])]}
     for _ in range(30):
@@ -820,7 +848,7 @@ def shrink_inspect(case, tag):
         nxt = None
         for c2, r2 in zip(cands, rs):
             o = oracle_inspect(c2, r2)
-            if o and o[0] == tag:
+            if o and o[0] == tag and o[2] == sig:
                 nxt = c2
                 break
         if nxt is None:
@@ -913,8 +941,10 @@ def main(tier):
     if not tfails and res['ok']:
         b, counts = model_check(pcases, pres, icases, ires)
         broken += b
-    unknown_fail = [x for x in pfail if not (x[2][2] and any(f.get('signature') == x[2][2] for f in run.findings))]
-    if broken and not unknown_fail and not ifail:
+    def is_known(x):
+        return bool(x[2][2]) and any(f.get('signature') == x[2][2] and f.get('status') == 'finding' for f in run.findings)
+    unknown_fail = [x for x in pfail if not is_known(x)]
+    if broken and not unknown_fail and not [x for x in ifail if not is_known(x)]:
         # extra search on the implementation alone, other sub-seeds
         for extra in range(1, 4):
             pc2 = gen_parse_cases(run.seed + 1000 * extra, tier)[-1200:]
@@ -925,24 +955,26 @@ def main(tier):
             if2 = [(c, r, o) for c, r in zip(ic2, o2['inspect']) for o in [oracle_inspect(c, r)] if o]
             pfail += pf2
             ifail += if2
-            if any(not (x[2][2] and any(f.get('signature') == x[2][2] for f in run.findings)) for x in pf2) or if2:
+            if any(not is_known(x) for x in pf2 + if2):
                 break
     report_parse_failures(run, pfail, broken)
     if ifail:
         groups = {}
         for c, r, o in ifail:
-            groups.setdefault(o[0], []).append((c, r, o))
-        for tag, items in sorted(groups.items()):
-            c, r, o = min(items, key=lambda x: len(x[0]['headers']))
-            small = shrink_inspect(c, tag)
+            groups.setdefault((o[0], o[2]), []).append((c, r, o))
+        for (tag, sig), items in sorted(groups.items(), key=lambda kv: str(kv[0])):
+            c, r, o = min(items, key=lambda x: len(x[0]['headers']) + len(x[0].get('rows') or []))
+            small = c if is_known((c, r, o)) else shrink_inspect(c, tag, sig)
             r2 = impl_inspect([small])[0]
             o2 = oracle_inspect(small, r2) or o
+            for k in ('sample_lines',):
+                r2.pop(k, None)
             run.violation('inspect', {'kind': 'counterexample', 'sub': 'inspect', 'case': small, 'oracle': o2[0], 'detail': o2[1],
                                       'observed': r2, 'expected': 'C18: the format string inspect suggests is accepted and selects '
                                       'the date/description/amount columns inspect reported', 'obligation': 'c18_inspect_roundtrip on '
-                                      'the implementation', 'broken': broken, 'n_failing_cases': len(items)})
-    still_unknown = [x for x in pfail if not (x[2][2] and any(f.get('signature') == x[2][2] for f in run.findings))]
-    if broken and not still_unknown and not ifail:
+                                      'the implementation', 'broken': broken, 'n_failing_cases': len(items)}, signature=sig)
+    still_unknown = [x for x in pfail + ifail if not is_known(x)]
+    if broken and not still_unknown:
         b0 = broken[0]
         run.violation('broken', {'kind': b0['kind'], 'obligation': b0.get('obligation'), 'broken': broken,
                                  'searched': f'{len(pcases)} format strings and {len(icases)} header rows (plus 3 further seeds) against '
